@@ -363,6 +363,8 @@ ConfOptic(op, a, o) ==
     [] OTHER -> FALSE
 
 (* ---- C19 Var interface and forgetting ---- *)
+\* every non-variable hyperedge is an operation of the evaluation signature with the right arity
+InSignature(f) == \A k \in 1 .. NE(f) : f.e[k].l = VarLabel \/ (f.e[k].l \in SigLabels /\ Len(f.e[k].s) = Arity(f.e[k].l) /\ Len(f.e[k].t) = Coarity(f.e[k].l))
 ConfVar(op, a, o) ==
   CASE op = "var.script" ->
          \* C19 speaks about the term's structure (one hyperedge per operator, every use reads the value
@@ -377,7 +379,7 @@ ConfVar(op, a, o) ==
          /\ IsVal(o) /\ o.val.built.tag = "ok"
          /\ WFLax(o.val.built.val) /\ Iso(LaxToPlain(o.val.built.val), LaxToPlain(t))
          /\ WFLax(o.val.forgot) /\ LaxConsistent(o.val.forgot) /\ Iso(Strictify(o.val.forgot), r)
-         /\ (DepAcyclic(r) /\ SingleWriter(r) /\ CopyLike(f) /\ NodeAcyclic(f) =>
+         /\ (DepAcyclic(r) /\ SingleWriter(r) /\ CopyLike(f) /\ NodeAcyclic(f) /\ InSignature(f) =>
                \A i \in 1 .. Len(a.inputs) : o.val.outs[i].tag = "some" /\ o.val.outs[i].val = EvalVarRef(f, a.inputs[i]))
     [] op = "var.forget" \/ op = "var.forget_monogamous" ->
          LET f == Strictify(a.f)  r == ForgetRef(f, op = "var.forget_monogamous") IN
@@ -386,7 +388,7 @@ ConfVar(op, a, o) ==
     [] op = "var.forget_eval" ->
          LET f == Strictify(a.f)  r == ForgetRef(f, FALSE) IN
          /\ IsVal(o) /\ WFLax(o.val.forgot) /\ LaxConsistent(o.val.forgot) /\ Iso(Strictify(o.val.forgot), r)
-         /\ (DepAcyclic(r) /\ SingleWriter(r) /\ CopyLike(f) /\ NodeAcyclic(f) =>
+         /\ (DepAcyclic(r) /\ SingleWriter(r) /\ CopyLike(f) /\ NodeAcyclic(f) /\ InSignature(f) =>
                \A i \in 1 .. Len(a.inputs) : o.val.outs[i].tag = "some" /\ o.val.outs[i].val = EvalVarRef(f, a.inputs[i]))
     [] OTHER -> FALSE
 
